@@ -61,7 +61,9 @@ StepBad(e, A, Ful) ==
              \/ (e.op = "poll" /\ res = "some" /\ (oVal = 0 \/ v # oVal \/ (~Broadcast /\ oTaken)))
              \/ (e.op = "poll" /\ res = "none" /\ ~(oFul /\ (oVal = 0 \/ (~Broadcast /\ oTaken))))
              \/ (e.op = "poll" /\ res = "pending" /\ oFul)
-      c11 == \/ (e.op = "close" /\ res = "newly" /\ (oClosedEv \/ oFul))
+      c11 == \* (threaded runs) the drop of the last handle of a side has returned: the channel is closed by now
+             \/ (e.op = "drop_returned" /\ ~oFul)
+             \/ (e.op = "close" /\ res = "newly" /\ (oClosedEv \/ oFul))
              \/ (e.op = "close" /\ res = "already" /\ ~oFul)
              \/ ("closed" \in DOMAIN e /\ e.closed # Ful)
       c17 == \/ ("term" \in DOMAIN e /\ e.term # SetToSortedSeq({f \in Slots : A[f] = "done"}))
